@@ -250,7 +250,7 @@ def run_job(job):
 
 def run(tier, seed):
     t0 = time.time()
-    n = 5 if tier == 'quick' else 6
+    n = 5 if tier == 'quick' else 7
     jobs = [('tmpl', n, s) for s in X.prefix_shards(T_SIGMA, n)]
     jobs += [('spec', ch) for ch in X.chunks(spec_product(tier), 3000)]
     total = C.Result()
